@@ -1983,3 +1983,125 @@ Proof.
     repeat match type of H with context [String.eqb n ?s] => destruct (String.eqb n s); try discriminate end.
   - vm_compute. reflexivity.
 Qed.
+
+(* ------------------------------------------------------------------ the validator's verdict is Units::compatible (without imports) *)
+
+Definition nonstd_names (w : world) : Prop := forall mi n d, lookup w mi n = Some d -> is_std_name n = false.
+
+Lemma at_add_std_get : forall n d m m' k, at_add_std n d m = Ok m' -> get m' k == get m k + d * std_dim n k.
+Proof.
+  intros n d m m' k. unfold at_add_std, std_dim. generalize (std_components n). intros comps. revert m.
+  induction comps as [|c r IH]; intros m H.
+  - cbn in H. injection H as <-. unfold comp_get. cbn. ring.
+  - cbn [fold_res] in H. unfold at_add at 1 in H. destruct (assoc (fst c) m); [|discriminate].
+    rewrite (IH _ H), get_madd, comp_get_cons. destruct (String.eqb (fst c) k); ring.
+Qed.
+
+Lemma at_add_std_wf : forall n d m m', wfmap m -> at_add_std n d m = Ok m' -> wfmap m'.
+Proof.
+  intros n d m m' Hwf. unfold at_add_std. apply fold_res_inv; [|exact Hwf].
+  intros c x x' _ Hx Hs. unfold at_add in Hs. destruct (assoc (fst c) x); [|discriminate]. injection Hs as <-.
+  apply wfmap_madd. exact Hx.
+Qed.
+
+Lemma defined_lookup : forall f w mi n, defined_sem f w mi n = Ok true -> exists d, lookup w mi n = Some d.
+Proof.
+  intros [|f'] w mi n H; [discriminate|]. rewrite defined_sem_S in H.
+  destruct (lookup w mi n) as [d|]; [exists d; reflexivity|discriminate].
+Qed.
+
+Lemma val_go_dim : forall w, import_free w -> nonstd_names w -> forall k f mi n uexp lm dir s,
+  defined_sem f w mi n = Ok true -> has_base (fst s) /\ wfmap (fst s) ->
+  exists s', val_go f w mi n uexp lm dir s = Ok s' /\ (has_base (fst s') /\ wfmap (fst s')) /\
+             get (fst s') k == get (fst s) k + dir * uexp * dim f w mi n k.
+Proof.
+  intros w Hfree Hns k. induction f as [|f' IH]; intros mi n uexp lm dir s Hd [Hb Hwf]; [discriminate|].
+  destruct (defined_lookup _ _ _ _ Hd) as [d Hl]. pose proof (Hns mi n d Hl) as Hstd.
+  destruct d as [l|mj r]; [|exfalso; apply (Hfree mi n mj r Hl)].
+  rewrite val_go_S, Hl, (is_base_defs f' w mi n l Hl Hstd).
+  destruct l as [|c0 l0].
+  - cbn [length Nat.eqb]. eexists. split; [reflexivity|]. cbn [fst snd].
+    split; [split; [apply has_base_madd; exact Hb|apply wfmap_madd; exact Hwf]|].
+    rewrite get_madd, dim_S, (is_base_defs f' w mi n [] Hl Hstd). cbn [length Nat.eqb].
+    destruct (String.eqb n k); ring.
+  - cbn [length Nat.eqb].
+    rewrite (dim_compound f' w mi n (c0 :: l0) k Hl (is_base_defs f' w mi n (c0 :: l0) Hl Hstd) eq_refl).
+    destruct (fold_res_sum_inv
+      (fun c s =>
+                  if negb (is_std_name (uc_ref c))
+                  then val_go f' w mi (uc_ref c) (uc_exp c * uexp)
+                         (lm + uc_mult c * uexp + prefix_or_zero (uc_prefix c) * uexp) dir s
+                  else match at_add_std (uc_ref c) (dir * (uc_exp c * uexp)) (fst s) with
+                       | Ok m => Ok (m, snd s + dir * (lm + (std_mult (uc_ref c) + uc_mult c + prefix_or_zero (uc_prefix c)) * uc_exp c))
+                       | OutOfFuel => OutOfFuel
+                       | Crash => Crash
+                       end)
+      (fun s : vstate => has_base (fst s) /\ wfmap (fst s)) (fun s : vstate => get (fst s) k)
+      (fun c => dir * uexp * (uc_exp c * (if is_std_name (uc_ref c) then std_dim (uc_ref c) k else dim f' w mi (uc_ref c) k)))
+      (c0 :: l0)) with (s := s) as [s' [Hs' [Ps' Vs']]].
+    + intros c x Hin [Bx Wx]. destruct (is_std_name (uc_ref c)) eqn:Hs; cbn [negb].
+      * destruct (at_add_std_ok (uc_ref c) (dir * (uc_exp c * uexp)) (fst x) Bx) as [m' [Hm' Bm']]. rewrite Hm'.
+        eexists. split; [reflexivity|]. cbn [fst snd]. split; [split; [exact Bm'|apply (at_add_std_wf _ _ _ _ Wx Hm')]|].
+        rewrite (at_add_std_get _ _ _ _ k Hm'). ring.
+      * destruct (defined_children f' w mi n (c0 :: l0) c Hd Hl Hin Hs) as [_ Hdc].
+        destruct (IH mi (uc_ref c) (uc_exp c * uexp) (lm + uc_mult c * uexp + prefix_or_zero (uc_prefix c) * uexp) dir x Hdc (conj Bx Wx))
+          as [x' [Hx' [Px' Vx']]].
+        exists x'. split; [exact Hx'|]. split; [exact Px'|]. rewrite Vx'. ring.
+    + split; assumption.
+    + exists s'. split; [exact Hs'|]. split; [exact Ps'|]. rewrite Vs'.
+      rewrite (sumq_scale (fun c => uc_exp c * (if is_std_name (uc_ref c) then std_dim (uc_ref c) k else dim f' w mi (uc_ref c) k)) (dir * uexp) (c0 :: l0)).
+      ring.
+Qed.
+
+Lemma forallb_filter_get : forall m, wfmap m ->
+  (forallb (fun kv : string * Q => qzero (snd kv)) (filter (fun kv => negb (String.eqb (fst kv) "dimensionless")) m) = true <->
+   forall k, k <> "dimensionless" -> get m k == 0).
+Proof.
+  intros m Hwf. rewrite forallb_forall. split.
+  - intros H k Hk. unfold get. destruct (assoc k m) as [v|] eqn:Ha; [|reflexivity].
+    apply qzero_iff. apply (H (k, v)). apply filter_In. split; [apply assoc_In; exact Ha|]. cbn.
+    apply negb_true_iff. apply String.eqb_neq. exact Hk.
+  - intros H [k v] Hin. apply filter_In in Hin. destruct Hin as [Hin Hnd]. cbn in *.
+    apply negb_true_iff in Hnd. apply String.eqb_neq in Hnd. apply qzero_iff.
+    specialize (H k Hnd). unfold get in H. rewrite (In_assoc_nodup k v m Hwf Hin) in H. exact H.
+Qed.
+
+Lemma wfmap_init : wfmap (map (fun b : string => (b, 0)) base_units_list).
+Proof.
+  unfold wfmap, keys.
+  replace (map fst (map (fun b0 : string => (b0, 0)) base_units_list)) with base_units_list by (vm_compute; reflexivity).
+  unfold base_units_list. repeat (constructor; [cbn; intuition discriminate|]). constructor.
+Qed.
+
+(** Without imports and with no units named after a standard unit, the validator's verdict for two defined units of a model
+    is Units::compatible. *)
+Lemma val_verdict_agrees_partial : forall fx f w mi n1 n2, import_free w -> nonstd_names w ->
+  is_defined f w mi n1 = Ok true -> is_defined f w mi n2 = Ok true ->
+  exists st q, val_equiv f w mi n1 n2 = Ok (st, q) /\
+               (st = true <-> compatible fx f w (Some (mi, n1)) (Some (mi, n2)) = Ok true).
+Proof.
+  intros fx f w mi n1 n2 Hfree Hns D1 D2.
+  pose proof (is_defined_sound _ _ _ _ D1) as S1. pose proof (is_defined_sound _ _ _ _ D2) as S2.
+  destruct (defined_lookup _ _ _ _ S1) as [d1 L1]. destruct (defined_lookup _ _ _ _ S2) as [d2 L2].
+  set (s0 := (map (fun b : string => (b, 0)) base_units_list, 0) : vstate).
+  assert (P0 : has_base (fst s0) /\ wfmap (fst s0)) by (split; [apply has_base_init|apply wfmap_init]).
+  (* the status does not depend on k: run val_go once, get the map equation for every k *)
+  destruct (val_go_dim w Hfree Hns "x" f mi n1 1 0 1 s0 S1 P0) as [s1 [H1 [P1 _]]].
+  destruct (val_go_dim w Hfree Hns "x" f mi n2 1 0 (-1 # 1) s1 S2 P1) as [s2 [H2 [P2 _]]].
+  unfold val_equiv. fold s0. unfold val_side. rewrite L1, H1, L2, H2.
+  eexists. eexists. split; [reflexivity|].
+  rewrite (forallb_filter_get (fst s2) (proj2 P2)).
+  rewrite (compatible_iff_same_exponents fx f w (mi, n1) (mi, n2) (or_intror Hfree) D1 D2). cbn [fst snd].
+  assert (G : forall k, get (fst s2) k == dim f w mi n1 k - dim f w mi n2 k).
+  { intros k.
+    destruct (val_go_dim w Hfree Hns k f mi n1 1 0 1 s0 S1 P0) as [s1' [H1' [_ V1]]]. rewrite H1 in H1'. injection H1' as <-.
+    destruct (val_go_dim w Hfree Hns k f mi n2 1 0 (-1 # 1) s1 S2 P1) as [s2' [H2' [_ V2]]]. rewrite H2 in H2'. injection H2' as <-.
+    rewrite V2, V1.
+    assert (Z : get (fst s0) k == 0).
+    { unfold s0. cbn [fst]. unfold get. destruct (assoc k (map (fun b : string => (b, 0)) base_units_list)) as [v|] eqn:Ha; [|reflexivity].
+      apply assoc_In in Ha. apply in_map_iff in Ha. destruct Ha as [b [Hb _]]. injection Hb as _ <-. reflexivity. }
+    rewrite Z. ring. }
+  split.
+  - intros H k Hk. specialize (H k Hk). rewrite G in H. rewrite <- (Qplus_0_l (dim f w mi n2 k)), <- H. ring.
+  - intros H k Hk. rewrite G, (H k Hk). ring.
+Qed.
